@@ -608,6 +608,13 @@ func (obj *Package) Export(name string) {
 			vv.Export = true
 			vv.Pkg = obj
 			obj.vars[name] = vv
+			for _, u := range obj.Users {
+				u.mu.Lock()
+				if xv := u.vars[name]; xv == nil {
+					u.vars[name] = vv
+				}
+				u.mu.Unlock()
+			}
 		}
 	}
 	obj.mu.Unlock()
